@@ -273,6 +273,15 @@ def monitorOp (mu : Mon) (prev : Args) (toks : List String) (implOk : Bool) (out
            else none)
         else if snd == k.2 && isFrom && owner == k.1 then none
         else some (mk "C02" "C02/allowance-frame" s!"pair={k.1}>{k.2} changed by {kind} from {snd}")
+      -- a successful increase / decrease has exactly its effect (decrease saturating at zero)
+      let fe := if !implOk then [] else
+        let k := (snd, (parseAddr (a.str "spender")).2)
+        let old := allowOf prev k; let new := allowOf cur k
+        if kind == "decrease_allowance" && new.amount != old.amount - amt then
+          [mk "C02" "C02/decrease-effect" s!"{old.amount}->{new.amount} amt={amt}"]
+        else if kind == "increase_allowance" && new.amount != old.amount + amt then
+          [mk "C02" "C02/increase-effect" s!"{old.amount}->{new.amount} amt={amt}"]
+        else []
       -- notifications
       let msgs := out.str "msgs"
       let fn := if !implOk then [] else
@@ -282,7 +291,7 @@ def monitorOp (mu : Mon) (prev : Args) (toks : List String) (implOk : Bool) (out
           (if msgs == s!"recv/{(parseAddr (a.str "contract")).2}/{snd}/{amt}/{a.str "payload"}" then [] else [mk "C02" "C02/send-notification" s!"msgs={msgs}"])
         else if kind == "marketing" || kind == "logo" || kind == "migrate" then []
         else (if msgs == "" then [] else [mk "C02" "C02/spurious-message" s!"msgs={msgs}"])
-      fb ++ fd ++ fa ++ fn
+      fb ++ fd ++ fa ++ fe ++ fn
     -- C02 cumulative ghost ledger: drawn ≤ granted
     let isFrom := kind == "transfer_from" || kind == "send_from" || kind == "burn_from"
     let mu := if fresh || !implOk then mu else
